@@ -511,6 +511,111 @@ def objective(spec, problem):
     return None
 
 
+def run_example_program(spec, out):
+    """The shipped example PROGRAM (python -m nucs.examples.<x> <argv>) executed as shipped - its own solver
+    configuration, decision domains, heuristic parameters, registration of a custom consistency algorithm, split over
+    processors - with the public solver entry points wrapped by recorders (behaviour preserving), the multiprocessing
+    solver running against the simulated processes, and everything the program's solver delivered judged by the
+    definition-level validator of the model."""
+    import ast
+    import contextlib
+    import io
+    import runpy
+
+    import nucs.solvers.multiprocessing_solver as M
+    from nucs.solvers.backtrack_solver import BacktrackSolver
+    from sim import mpsim
+    from sim.kernel import Choices
+
+    rec = {}
+
+    def wrap_gen(cls):
+        orig = cls.solve
+
+        def solve(self):
+            for x in orig(self):
+                rec.setdefault(id(self), {"yielded": [], "returned": []})["yielded"].append([int(v) for v in x])
+                yield x
+
+        cls.solve = solve
+
+    def wrap_opt(cls, name):
+        orig = getattr(cls, name)
+
+        def opt(self, variable_idx):
+            r = orig(self, variable_idx)
+            rec.setdefault(id(self), {"yielded": [], "returned": []})["returned"].append(
+                (name, int(variable_idx), None if r is None else [int(v) for v in r]))
+            return r
+
+        setattr(cls, name, opt)
+
+    for cls in (BacktrackSolver, M.MultiprocessingSolver):
+        wrap_gen(cls)
+        wrap_opt(cls, "minimize")
+        wrap_opt(cls, "maximize")
+    ch = Choices(seed=spec.get("seed", 0))
+    plan = {"template": ["merge", "jitter", "slow", "race"][ch.choose(4, "template")], "faults": {}, "start": {},
+            "late_pickle": ch.chance(1, 2, "late"), "opcost": ch.choose(3, "opcost")}
+
+    def run_worker(stream, clone, method, args, kwargs):
+        getattr(clone, method)(*args, **kwargs)
+
+    world = mpsim.World(ch, plan, run_worker, {})
+    argv0 = sys.argv
+    buf = io.StringIO()
+    sys.argv = [spec["main"]] + [str(a) for a in spec.get("argv", [])] + ["--log_level", "ERROR"]
+    try:
+        with mpsim.patched(world), contextlib.redirect_stdout(buf):
+            g = runpy.run_module(spec["main"], run_name="__main__")
+    finally:
+        sys.argv = argv0
+    solver, problem = g.get("solver"), g.get("problem")
+    if isinstance(spec.get("costs"), str):
+        from nucs.examples.tsp.tsp_instances import TSP_INSTANCES
+
+        spec["costs"] = [[int(c) for c in row] for row in TSP_INSTANCES[spec["costs"]]]
+    if solver is None or problem is None:
+        raise RuntimeError("the example program defines no `solver` / `problem`")
+    mine = rec.get(id(solver), {"yielded": [], "returned": []})
+    validator = VALIDATORS[spec["model"]]
+    sols = mine["yielded"]
+    check = list(sols)
+    out["mode"] = "enumeration"
+    if mine["returned"]:
+        name, var, r = mine["returned"][-1]
+        obj = objective(spec, problem)
+        out["mode"] = "optimisation"
+        out["optimum"] = None if r is None else r[obj[1] if obj else var]
+        out["objective_as_called"] = [name, var]
+        out["objective_expected"] = None if obj is None else [{"min": "minimize", "max": "maximize"}[obj[0]], obj[1]]
+        check = [] if r is None else [r]
+        sols = check
+    bad = None
+    for x in check:
+        e = validator(x, spec)
+        if e:
+            bad = {"solution": x[:60], "why": e}
+            break
+    out["count"] = len(sols)
+    out["distinct"] = len(set(map(tuple, sols)))
+    out["invalid"] = bad
+    out["processes_started"] = len(world.procs)
+    out["delivery_order"] = world.delivery_order[:40]
+    text = buf.getvalue()
+    out["printed_lines"] = len(text.splitlines())
+    import re
+
+    m = re.search(r"\{[^{}]*SOLVER_SOLUTION_NB[^{}]*\}", text, re.S)  # the statistics the program printed
+    if m:
+        try:
+            out["stats"] = {k: int(v) for k, v in ast.literal_eval(m.group(0)).items()}
+        except Exception:
+            pass
+    if spec.get("brute"):
+        out["brute"] = brute_count(spec)
+
+
 def main():
     repo, root, spec = sys.argv[1], sys.argv[2], json.loads(sys.argv[3])
     sys.path.insert(0, root)
@@ -566,6 +671,10 @@ def main():
             if rw.get("shuffle"):
                 rng.shuffle(problem.propagators)
 
+        if spec.get("main"):
+            run_example_program(spec, out)
+            print(json.dumps(out), flush=True)
+            os._exit(0)
         problem = build(spec)
         if spec.get("fix_solution") is not None:
             # "the model accepts a known valid object": every variable is fixed to the object's value, within the
